@@ -559,6 +559,11 @@ class Interp:
             if r[0] == "ext":
                 return V("mod", T("ext", r[1]), extra=("ext", r[1]))
             if r[0] == "assign":
+                node_ = r[2]
+                if isinstance(node_, (ast.Dict, ast.List, ast.Set)) or (isinstance(node_, ast.Call) and isinstance(node_.func, ast.Name) and node_.func.id in ("dict", "list", "set", "OrderedDict", "defaultdict")):
+                    # a module-level mutable container consulted from inside a function: results may depend on
+                    # what earlier calls left there (hidden state shared between calls)
+                    self.event("shape-conflict", node_, st, what="hidden state: a module-level mutable container is read inside a function", a=type(node_).__name__, b="module global")
                 return self.eval_in_module(r[2], r[1], st)
         return vunk("resolved?")
 
